@@ -324,6 +324,9 @@ class AsyncFIXConnection:
                         self._msg_buffer = self._msg_buffer[parsed_length:]
 
                     if decoded_msg is None:
+                        if parsed_length > 0:
+                            # junk or malformed message skipped, decode the remainder
+                            continue
                         break
 
                     await self._process_message(decoded_msg, raw_msg)
